@@ -1508,6 +1508,7 @@ class Stream(AbstractStream):
         elif N_streams == 1:
             if energy_balance:
                 self.copy_like(streams[0])
+                if Q: self.H = self.H + Q
             else:
                 self.copy_flow(streams[0])
         else:
